@@ -31,7 +31,7 @@ PROPERTY = "C09"
 LEVEL = "exploration"
 RUNS = {"quick": 96, "thorough": 3000}
 WALL = {"quick": 1500, "thorough": 6 * 3600}
-LIST_FIELDS = ["ops", "tasks", "bulk"]
+LIST_FIELDS = ["ops", "tasks", "bulk", "late"]
 STUBS = ["pickle buffer / deepcopy (persist fault)", "borrowed synapse / channel kinetics inside RefSim"]
 ASSUMPTIONS = ["RefSim scheme assumptions as in C19; tolerance 1e-6 mV vs RefSim, 1e-9 between jaxley executions",
                "'simulated alone' = a fresh Cell built from the cell's displayed rows (canonical twin), same solver and backend"]
@@ -80,7 +80,7 @@ def generate(seed, tier="quick"):
         for op in t:
             dw.dry_apply(op)
     bulk = []
-    for _ in range(o.randint(0, 3)):
+    for _ in range(o.randint(0, 4)):
         if not dw.ref.syns:
             break
         s_ = o.choice(dw.ref.syns)
@@ -89,9 +89,21 @@ def generate(seed, tier="quick"):
         op = {"op": "set", "view": view, "key": col, "val": {"seed": o.randrange(1 << 30)}}
         if dw.dry_apply(op) == "accept":
             bulk.append(op)
+    # assignments that address synapses by their global edge index (legitimately creation-order dependent): applied to
+    # the canonical wiring only, after the order comparison; array values through an *unsorted* edge selection
+    late = []
+    for _ in range(o.randint(0, 2)):
+        if not dw.ref.syns:
+            break
+        s_ = o.choice(dw.ref.syns)
+        col = o.choice(list(s_["params"]) + list(s_["states"]))
+        op = {"op": "set", "view": [["select_edges", {"t": "ulist", "v": [o.randrange(64) for _ in range(o.randint(2, 4))]}]], "key": col,
+              "val": {"seed": o.randrange(1 << 30), "array": o.random() < 0.7}}
+        if dw.dry_apply(op) == "accept":
+            late.append(op)
     order = list(range(len(tasks)))
     o.shuffle(order)
-    return {"prop": PROPERTY, "shape": shape, "ops": ops, "tasks": tasks, "bulk": bulk, "order": order,
+    return {"prop": PROPERTY, "shape": shape, "ops": ops, "tasks": tasks, "bulk": bulk, "late": late, "order": order,
             "steps": None if ("i" in dw.ref.externals or dw.ref.externals) and o.random() < 0.5 else o.randint(3, 16), "L": L,
             "dt": o.choice(DTS), "solver": o.choice(["bwd_euler", "bwd_euler", "crank_nicolson"]),
             "vsolver": o.choice(["jaxley.stone", "jaxley.thomas", "jax.sparse"]), "mode": o.choice(["eager", "eager", "jit"]),
@@ -287,6 +299,46 @@ def execute(program):
             if not simrun.close(out, out2, **TOL_SAME):
                 w.violate("creation_order_invariant", f"creation order {order} changes the result by {simrun.maxdiff(out, out2):.3e}", nidx)
                 return res()
+    # assignments by global edge index on the canonical wiring, then the reference simulator once more
+    if program.get("late") and ref.edges:
+        j_ = nidx
+        for op in program["late"]:
+            before_v = len(w.violations)
+            apply_op(w, op, j_)
+            j_ += 1
+            for v in w.violations[before_v:]:
+                if v["oracle"] == "tables_conform":
+                    v["oracle"] = "edge_param_confined"
+        if w.violations or w.stopped:
+            return res()
+        try:
+            out = integ(w, w.m, program, steps_arg)
+            expect, _ = refsim.RefSim(ref_from_module(w.m), program["solver"]).run(steps, dt)
+        except HarnessError:
+            raise
+        except Exception as e:  # noqa: BLE001
+            if exc_in_harness(e):
+                raise HarnessError(f"{type(e).__name__}: {e}") from e
+            w.violate("unexpected_refusal", f"integrate raised {exc_text(e)} after edge-view assignments", nidx)
+            return res()
+        w.bump("oracle_refsim")
+        if not simrun.close(out, expect, **TOL_REF):
+            w.violate("refsim_equal", f"after assignments through an unsorted edge selection the simulation differs from the reference simulation of the displayed tables by {simrun.maxdiff(out, expect):.3e}", nidx)
+            return res()
+    # the first network is simulated again after another network was built and simulated in the same process:
+    # nothing of the other one may be used (bit-identical repeat)
+    try:
+        out_again = integ(w, w.m, program, steps_arg)
+    except HarnessError:
+        raise
+    except Exception as e:  # noqa: BLE001
+        w.violate("creation_order_invariant", f"simulating the network again after another network was built raised {exc_text(e)}", nidx)
+        return res()
+    w.bump("oracle_repeat_after_other_network")
+    if not np.array_equal(out, out_again, equal_nan=True):
+        w.violate("creation_order_invariant", f"simulating the same network again, after another network was built and simulated, changes the result by {simrun.maxdiff(out, out_again):.3e}", nidx,
+                  {"repeat_after_other_network": True})
+        return res()
     # (ii) zero conductance => every cell as if simulated alone
     if program.get("zero_g") and ref.edges:
         i = nidx
